@@ -157,27 +157,32 @@ Definition tr_rotate_rank_old (mode : nat) (rk : list nat) : list nat := rotate 
 Definition tr_rotate_rank_spec (n mode : nat) (rk : list nat) : list nat :=
   map (fun j => nth ((mode + j) mod n) rk 0) (seq 0 (n + 1)).
 
+(* the body of tensor_ring after the rotation: first SVD with rank[0]*rank[1] kept triplets, first factor
+   = transpose(reshape(U, (s0, r0, r1)), (1,0,2)), remainder reshaped to (r0, r1, -1) and transposed to
+   (r1, -1, r0), then the sequential loop shared with tensor_train (calls 1, 2, ...) *)
+Definition tr_core (Xp : tensor F) (rk : list nat) : res (list (tensor F)) :=
+  let s0 := hd 0 (shape Xp) in
+  let rest := tl (shape Xp) in
+  let r0 := nth 0 rk 0 in
+  let r1 := nth 1 rk 0 in
+  let n_col := prod rest in
+  if Nat.min s0 n_col <? r0 * r1 then Err else
+  let a := svd_interface (svd 0 (mk [s0; n_col] (data Xp))) (r0 * r1) in
+  if fact_shapes_ok s0 n_col (r0 * r1) a then
+    let '(U, Sv, V) := a in
+    let factor0 := transpose (f0 Op) [1; 0; 2] (reshape [s0; r0; r1] U) in
+    let W := transpose (f0 Op) [1; 2; 0] (reshape [r0; r1; n_col] (sv_mul Sv V)) in
+    rbind (chain_loop 1 rest (skipn 2 rk) r1 r0 (data W)) (fun cs => Ok (factor0 :: cs))
+  else Err.
+
 Definition tensor_ring (X : tensor F) (rank : rank_spec) (mode : nat) : res (list (tensor F)) :=
   let n := ndim X in
   rbind (validate_tr_rank n rank) (fun rk0 =>
     if negb (mode <? n) then Err else
     let Xp := if Nat.eqb mode 0 then X else transpose (f0 Op) (rotate mode (seq 0 n)) X in
     let rk := if Nat.eqb mode 0 then rk0 else tr_rotate_rank n mode rk0 in
-    let s0 := hd 0 (shape Xp) in
-    let rest := tl (shape Xp) in
-    let r0 := nth 0 rk 0 in
-    let r1 := nth 1 rk 0 in
-    let n_col := prod rest in
-    if Nat.min s0 n_col <? r0 * r1 then Err else
-    let a := svd_interface (svd 0 (mk [s0; n_col] (data Xp))) (r0 * r1) in
-    if fact_shapes_ok s0 n_col (r0 * r1) a then
-      let '(U, Sv, V) := a in
-      let factor0 := transpose (f0 Op) [1; 0; 2] (reshape [s0; r0; r1] U) in
-      let W := transpose (f0 Op) [1; 2; 0] (reshape [r0; r1; n_col] (sv_mul Sv V)) in
-      rbind (chain_loop 1 rest (skipn 2 rk) r1 r0 (data W)) (fun cs =>
-        let fs := factor0 :: cs in
-        Ok (if Nat.eqb mode 0 then fs else lastn mode fs ++ firstn (n - mode) fs))
-    else Err).
+    rbind (tr_core Xp rk) (fun fs =>
+      Ok (if Nat.eqb mode 0 then fs else lastn mode fs ++ firstn (n - mode) fs))).
 
 (* ---------------------------------------------------------------- _tucker.py *)
 (* mode_dot(X, M, k) / mode_dot(X, M^T, k), index-level definition of the n-mode product *)
